@@ -169,6 +169,15 @@ func (o *objectGoMapReflect) _put(key reflect.Value, val Value, throw bool) bool
 			if !ok {
 				return false
 			}
+			if o.fieldsValue.IsNil() {
+				// a nil map reached through a pointer or a struct field is created on first write,
+				// otherwise there is nothing the entry could be added to
+				if !o.fieldsValue.CanSet() {
+					o.val.runtime.typeErrorResult(throw, "Cannot set property %v of a nil Go map", key)
+					return false
+				}
+				o.fieldsValue.Set(reflect.MakeMap(o.fieldsValue.Type()))
+			}
 			o.fieldsValue.SetMapIndex(key, v)
 		} else {
 			o.val.runtime.typeErrorResult(throw, "Cannot set property %v, object is not extensible", key)
